@@ -26,7 +26,7 @@ import (
 type route struct{ pat, method string }
 
 var universe = []route{{"/u/:a/:b", "GET"}, {"/a/:x", "GET"}, {"/b/:x/:y", "GET"}, {"/s", "*"}, {"/w/*", "GET"}, {"/a/:x", "POST"}, {"/:y", "GET"}, {"/s", "GET"}, {"/s/", "POST"}}
-var paths = []string{"/u/1/2", "/a/7", "/b/3/4", "/s", "/zz", "/u/9", "/w/q/r", "/b/5", "/", "/zz/1/2/3", "//s", "/s/"}
+var paths = []string{"/u/1/2", "/a/7", "/b/3/4", "/s", "/zz", "/u/9", "/w/q/r", "/b/5", "/", "/zz/1/2/3", "//s", "/s/", "/w/*", "/w/*/r", "/*", "/a/:x", "/u/:a/*"}
 var methods = []string{"GET", "POST"}
 var behaviours = []string{"ok", "status", "panic", "escape", "nest"}
 var names = []string{"a", "b", "x", "y", "/:any"}
@@ -160,11 +160,21 @@ func (w *world) register(u int) (ok bool) {
 	return true
 }
 
+// clientHeaders: what clients and proxies in front of the server send along - the same values on every request (a retry, a
+// client that numbers its requests itself); nothing the Store reports may be taken from them
+func clientHeaders() http.Header {
+	h := http.Header{}
+	for _, k := range []string{"X-Request-Id", "X-Request-ID", "Request-Id", "X-Correlation-Id", "X-Trace-Id", "X-Amzn-Trace-Id", "Traceparent", "X-Forwarded-For", "X-Real-Ip"} {
+		h.Set(k, "client-chosen-1")
+	}
+	return h
+}
+
 func (w *world) serve(p, m, beh string) op {
 	o := op{Op: "req", P: vio.Ints(p), M: m, Beh: beh, GidExit: []int{}}
 	o.Relay = snap{ID: -2, V: [][]int{}, Gid: []int{}}
 	o.Handler = snap{ID: -2, V: [][]int{}, Gid: []int{}}
-	req := (&http.Request{Method: m, URL: &url.URL{Path: p}, Header: http.Header{}}).WithContext(
+	req := (&http.Request{Method: m, URL: &url.URL{Path: p}, Header: clientHeaders()}).WithContext(
 		contextWith(&reqCtx{o: &o, beh: beh}))
 	func() {
 		defer func() {
@@ -393,7 +403,7 @@ func hammer(wr *vio.Writer, rng *rand.Rand, dur time.Duration) {
 				}
 				pi, mi, bi := r.Intn(len(paths)), r.Intn(len(methods)), r.Intn(2)
 				rc := &hamCtx{bi: bi}
-				req := (&http.Request{Method: methods[mi], URL: &url.URL{Path: paths[pi]}, Header: http.Header{}}).WithContext(
+				req := (&http.Request{Method: methods[mi], URL: &url.URL{Path: paths[pi]}, Header: clientHeaders()}).WithContext(
 					context.WithValue(context.Background(), hamCtxKey{}, rc))
 				func() {
 					defer func() {
